@@ -553,7 +553,7 @@ def proc_cases(env, full):
     # 130 either way). Accepted as 130 when main's handler demonstrably ran; counted in the distribution.
     add('sigint', 'in-py-step-exec', [py(BLOCK), NEVER], {'status': 130, 'or_sigint_death': True}, sigint=True)
     # --- pass-through, end to end
-    for _ in range(40 if full else 10):
+    for _ in range(120 if full else 12):
         C.append(probe_case(rng))
     if full:
         # repeat every termination kind under the option layouts
